@@ -105,6 +105,7 @@ func TestC25ConcurrentReads(t *testing.T) {
 						}
 					case 2:
 						cs.Swap().SwapPools(ctx)
+						cs.Swap().GetOrder(uint32(i/12%48) + 1)
 					case 3, 4:
 						cs.Swap().GetBestTradeExactIn(ctx, uint64(b), uint64(a), big.NewInt(1e18), 4)
 					case 5:
@@ -113,6 +114,10 @@ func TestC25ConcurrentReads(t *testing.T) {
 						if sw := cs.Swap().GetSwapper(a, b); sw.Exists() {
 							sw.Reserves()
 							sw.CalculateBuyForSellWithOrders(big.NewInt(1e18))
+							// the estimate handlers' commission step
+							if out, _ := sw.CalculateBuyForSellWithOrders(big.NewInt(1e17)); out != nil && out.Sign() == 1 {
+								sw.AddLastSwapStepWithOrders(big.NewInt(1e17), out, false).Reverse().CalculateBuyForSellWithOrders(big.NewInt(1e16))
+							}
 						}
 					case 7:
 						cs.Coins().GetCoin(a)
@@ -123,9 +128,12 @@ func TestC25ConcurrentReads(t *testing.T) {
 					case 9:
 						cs.Commission().GetCommissions()
 						cs.App().GetTotalSlashed()
+						cs.App().Reward()
 					case 10:
 						cs.Accounts().GetBalance(addrs[i%len(addrs)], a)
 						cs.Accounts().GetNonce(addrs[i%len(addrs)])
+						cs.Accounts().GetAccount(addrs[(i/12)%len(addrs)])
+						cs.Accounts().GetLockStakeUntilBlock(addrs[(i/12)%len(addrs)])
 					case 11:
 						if hh := atomic.LoadUint64(&lastHeight); hh > 0 && i%40 == 11 {
 							if st, err := n.App.GetStateForHeight(hh); err == nil {
